@@ -17,7 +17,10 @@ THEOREMS = ["Mistune.escape_no_specials", "Mistune.safeEntity_no_specials", "Mis
             "Mistune.templates_ok", "Mistune.templates_none_opaque", "Mistune.evalPieces_safe", "Mistune.evalTmpl_safe", "Mistune.renderTok_safe", "Mistune.render_safe",
             "Mistune.evalTmpl_tagged", "Mistune.renderTok_tagged", "Mistune.render_tagged", "Mistune.templates_tagOk", "Mistune.templates_nodup", "Mistune.tagTable_wf", "Mistune.templateIntArgs_eq",
             # striptags: the regenerated regex IS the expected term (kernel-decided) and on well-tagged strings it equals the tag scanner's projection (proved)
-            "Mistune.striptagsRx_is_expected", "Mistune.stripAgrees_expected", "Mistune.stripAgrees_generated", "Mistune.render_tagged_closed"]
+            "Mistune.striptagsRx_is_expected", "Mistune.stripAgrees_expected", "Mistune.stripAgrees_generated", "Mistune.render_tagged_closed",
+            # script URLs: escape_url at parse time + safe_url at render time = what a browser reads is never a harmful scheme
+            "Mistune.escapeUrl_browser_fixed", "Mistune.safeUrlStr_cases", "Mistune.href_not_script", "Mistune.rendered_url_not_script", "Mistune.rendered_url_not_scriptCI",
+            "Mistune.applyOp_safeUrl_not_script", "Mistune.harmful_lower_ascii", "Mistune.goodData_lower_ascii", "Mistune.lowerTree_ascii"]
 
 CANARIES = ['onq9=1//', 'a"onq9="1', '<xq9 onq9=1//', 'R&D<xq9', '5" onq9="1', '<xq9 yq9="1">', '"><xq9 onq9="1">', "'><xq9>", '" onq9="1', "</p><xq9>", "-->", "<!--", "<script>xq9</script>", "&lt;xq9&gt;", '\\"<xq9>', "`<xq9>`", "javascript:xq9"]
 # free-text fields of tokens (data that comes verbatim from the input); alphabet-restricted fields (ruby raw/rt, heading id,
